@@ -500,6 +500,9 @@ func gen(c *harness.C) []harness.Case {
 	prop := os.Getenv("VERIF_PROP")
 	c.Property = prop
 	var cases []harness.Case
+	if os.Getenv("VERIF_FAMILY") == "conc" {
+		return concCases(c, prop)
+	}
 	switch prop {
 	case "C04":
 		c.Note("rule", "explicit-state DFS over all delivery orders of in-flight messages of real Schemes (any-order network), dedup on canonical dump of receivers' private state + in-flight multiset + hand-overs; f0 = global exact search, fK = only deliveries to party K branch (others eager). distinct_nontrivial = distinct quiescent histories")
